@@ -115,6 +115,8 @@ class GMRF(Distribution):
         self._physical_dim = physical_dim
 
         if self._physical_dim == 2:
+            if self.geometry.fun_shape[0] != self.geometry.fun_shape[1]: # (the difference operators exist for square grids only)
+                raise NotImplementedError(f"{self.__class__.__name__} is only implemented for square 2D geometries, got fun_shape {self.geometry.fun_shape}.")
             N = int(np.sqrt(self.dim))
             num_nodes = (N, N)
         else: 
